@@ -16,7 +16,7 @@ PROPS = {
                 "UDP/TCP/ICMP/other, length fields below/at/above the truth, truncation sweeps, trailing bytes, "
                 "flips, noise, all 65536 ether types) decoded by the strict slicers and by the reference decoder; "
                 "a case is non-trivial if the reference decoder got past the first header or found the fault "
-                "behind it; distinct = distinct (entry point, layer sequence, outcome class, faulty layer) signatures",
+                "behind it; distinct = distinct (entry point, layer sequence, outcome class, faulty layer) signatures; engine big: the same judgement on packets whose true sizes lie around 2^16 (65535 -/+ header sizes, 65536, 70 000, 131 072: where 16 bit length arithmetic would wrap)",
         "assumptions": COMMON_ASSUME + [
             "reference decoder R (harness/src/refmodel/pkt.rs) is right about the wire formats; it is itself "
             "checked against the generator's recipe on every clean packet",
@@ -28,6 +28,7 @@ PROPS = {
             "entry.SlicedPacket::from_ethernet": 100, "entry.SlicedPacket::from_linux_sll": 100,
             "entry.SlicedPacket::from_ether_type": 100, "entry.SlicedPacket::from_ip": 100,
             "error_kind.Len:*": 100, "error_kind.Content:*": 100,
+            "big_cases": 5000,
         },
     },
     "C07": {
@@ -37,7 +38,7 @@ PROPS = {
                 "entry points of the 4 decoder families, the 13 IP-level entry points and the io::Read doors (IpHeaders::read, "
                 "Ipv6Extensions/Ipv4Extensions::read_limited over a LimitedReader with a random base offset); every Err / lax stop error is "
                 "compared field by field with the set of truthful reports of the reference decoder; distinct = distinct "
-                "(entry point, error class, stop layer, faulty layer kind, fault behind offset 0) signatures; engine single: 36 single-layer decoders (header structs and slice types) judged the same way; engine convert: errors of 13 slice and 8 reader entry points keep their message, innermost source and typed accessor when converted into FromSliceError / ReadError",
+                "(entry point, error class, stop layer, faulty layer kind, fault behind offset 0) signatures; engine single: 36 single-layer decoders (header structs and slice types) judged the same way; engine convert: errors of 13 slice and 8 reader entry points keep their message, innermost source and typed accessor when converted into FromSliceError / ReadError; engine big: the same judgement on packets whose true sizes lie around 2^16 (65535 -/+ header sizes, 65536, 70 000, 131 072: where 16 bit length arithmetic would wrap)",
         "assumptions": COMMON_ASSUME + [
             "reference decoder R and its truthful-report sets (DESIGN appendix A)",
             "reporting LenSource::Slice is always accepted (the statement only constrains other sources)",
@@ -50,6 +51,8 @@ PROPS = {
             "entry.IpHeaders::read": 100000, "entry.Ipv6Extensions::read_limited": 100000, "entry.Ipv4Extensions::read_limited": 100000,
             "readers.staged_minimum": 100,
             "api.c07.conversions_preserve_message": 100000, "api.c07.read_conversions_preserve_message": 100000, "entry.UdpHeader::from_slice": 10000, "entry.TcpSlice::from_slice": 10000,
+            "big_cases": 5000,
+            "api.c07.reader_error_accessors": 10000,
         },
     },
     "C05": {
@@ -59,7 +62,7 @@ PROPS = {
                 "IpHeaders::*_lax x3, LaxMacsecSlice, UdpSlice::from_slice_lax, Ipv6Extensions(Slice)::from_slice_lax) compared with "
                 "(a) the strict sibling on the same bytes (incl. stop error = strict error where both stop at one single-description fault) "
                 "and (b) the reference decoder in lax mode; non-trivial = decoded past "
-                "the first header or recorded a stop error; distinct = distinct (entry point, layer sequence, stop error class, stop layer)",
+                "the first header or recorded a stop error; distinct = distinct (entry point, layer sequence, stop error class, stop layer); engine big: the same judgement on packets whose true sizes lie around 2^16 (65535 -/+ header sizes, 65536, 70 000, 131 072: where 16 bit length arithmetic would wrap)",
         "assumptions": COMMON_ASSUME + [
             "reference decoder R in lax mode (DESIGN appendix B) incl. the documented relaxations (IPv4 total_len / IPv6 "
             "payload_len / MACsec short length / UDP length fall back to the slice)",
@@ -71,6 +74,7 @@ PROPS = {
             "lax.stop.Tcp": 10, "lax.stop.Icmp4": 5, "lax.stop.Icmp6": 5, "lax.stop.Ipv4": 10,
             "lax.incomplete_true.Macsec": 10, "lax.incomplete_true.Ipv4": 100, "lax.incomplete_true.Ipv6": 100,
             "lax.single_agree": 1000, "stop_error_equals_strict_error": 10000,
+            "big_cases": 5000,
         },
     },
     "C04": {
@@ -79,7 +83,7 @@ PROPS = {
                 "ether types) decoded by PacketHeaders and SlicedPacket (and LaxPacketHeaders / LaxSlicedPacket) from the same bytes; "
                 "headers, stop errors, verdict and remaining payload range compared; where the reference decoder's struct-mode and "
                 "slice-mode walks of the extension chain differ the struct result is judged against the struct-mode walk (computed "
-                "permitted difference); distinct = distinct (entry point, layer sequence, outcome, payload kind); engine api: the variant accessors of LinkHeader / NetHeaders / TransportHeader / NetSlice answer exactly for the variant decoded",
+                "permitted difference); distinct = distinct (entry point, layer sequence, outcome, payload kind); engine api: the variant accessors of LinkHeader / NetHeaders / TransportHeader / NetSlice answer exactly for the variant decoded; engine big: the same judgement on packets whose true sizes lie around 2^16 (65535 -/+ header sizes, 65536, 70 000, 131 072: where 16 bit length arithmetic would wrap)",
         "assumptions": COMMON_ASSUME + [
             "the conversion image of a slicing result (observe::whole::to_header_image) mirrors what to_header() keeps: all "
             "decoded field values, none of the byte offsets",
@@ -91,6 +95,7 @@ PROPS = {
             "same.ether": 500, "same.macsec_mod": 100, "same.empty": 100, "both_reject": 1000, "same_stop": 1000,
             "permitted_difference_ok": 500,
             "api.c04.net_slice_accessors": 10000, "api.c04.transport_accessors": 10000,
+            "big_cases": 5000,
         },
     },
     "C06": {
@@ -100,7 +105,7 @@ PROPS = {
                 "(b) from_ethernet vs from_ether_type on the bytes behind the Ethernet II header (offsets +14) and (c) from_ether_type"
                 "(IPv4/IPv6) vs from_ip in all 4 decoder families, (d) read() from a Cursor vs from_slice() for 24 reader entry points "
                 "of 17 header types incl. cursor position; errors compared after projecting sibling layer names; equality demanded only "
-                "for single-fault inputs; distinct = distinct (rule, entry point, outcome signature); engine api: the deprecated read_from_slice doors (6 header types) and Ethernet2Header::from_bytes equal from_slice, value and rest",
+                "for single-fault inputs; distinct = distinct (rule, entry point, outcome signature); engine api: the deprecated read_from_slice doors (6 header types) and Ethernet2Header::from_bytes equal from_slice, value and rest; engine big: the same judgement on packets whose true sizes lie around 2^16 (65535 -/+ header sizes, 65536, 70 000, 131 072: where 16 bit length arithmetic would wrap); the skip walkers over a slice (Ipv6Header::skip_header_extension_in_slice / skip_all_…) against a reference walk, and their io::Read doors against them",
         "assumptions": COMMON_ASSUME + [
             "a too short slice corresponds to io::ErrorKind::UnexpectedEof of a reader",
             "rules that depend on the total slice length (ICMPv4 timestamp exact size, IP total length vs slice) are excluded when only the slice decoder can know them",
@@ -113,6 +118,8 @@ PROPS = {
             "read_vs_slice.same_value": 10000, "read_vs_slice.rejection.Len": 1000, "read_vs_slice.rejection.Content": 500,
             "entry.*::read": 24000,
             "api.c06.alias_same_error": 100000, "api.c06.alias_same_value": 100000,
+            "big_cases": 5000,
+            "api.c06.skip_in_slice_ok": 10000, "api.c06.skip_in_slice_rejects": 10000, "api.c06.skip_reader_same": 10000,
         },
     },
     "C01": {
@@ -191,6 +198,7 @@ PROPS = {
             "errors.too_big": 500, "errors.conflicting_end": 500, "conservation_checks": 50000, "buf.completed": 100,
             "bytes_reassembled_and_compared": 1000000,
             "datagrams.with_empty_final_fragment": 1000, "fragments.empty_inner": 1000,
+            "datagrams.above_32k": 500,
         },
     },
     "C12": {
@@ -209,6 +217,7 @@ PROPS = {
             "inconsistent_chains_rejected": 100000, "set_next_headers_ok": 40000, "ipv4.chains": 5000, "wrappers.write_ok": 10000,
             "wrappers.net_headers_ok": 5000,
             "wrappers.ipv4_walk_and_write_agree": 1000, "wrappers.ipv6_walk_and_write_agree": 100000, "api.ok": 100000,
+            "decoded_same_through_all_doors": 5000,
         },
     },
     "C13": {
@@ -234,6 +243,7 @@ PROPS = {
             "areas.fully_tiled_nonempty": 250000, "areas.fault_behind_valid_items": 1000000, "raw_set.rejected_over_40": 10000,
             "header_slice_paths.agree": 6000000,
             "api.ok": 100000,
+            "builder_options.accepted": 1000, "builder_options.replaced_earlier_options": 1000,
         },
     },
     "C14": {
@@ -349,6 +359,7 @@ PROPS = {
             "consistent.Tcp.v4": 20000, "consistent.Tcp.v6": 20000, "consistent.Icmp4.v4": 20000, "consistent.Icmp6.v6": 20000,
             "unencodable_rejected.Icmpv6InIpv4": 10000, "unencodable_rejected.PayloadLen": 500, "limits.at_or_below": 1000,
             "paths.configs": 100000,
+            "tcp.options_replaced_by_second_call": 1000,
         },
     },
     "C17": {
@@ -394,6 +405,7 @@ PROPS = {
             "values.round_trips": 800000, "setters.ok": 1000000, "values.type.Icmpv4Header(timestamp)": 5000,
             "bytes.accepted_by_read": 100000, "bytes.accepted_by_from_slice": 100000,
             "api.c08.arp_views": 10000, "bytes.door.TcpSlice::to_header": 1000, "bytes.door.MacsecHeaderSlice::to_header": 1000,
+            "values.sll_protocol_variant.LinuxNonstandardEtherType": 1000, "values.sll_protocol_variant.NetlinkProtocolType": 1000,
         },
         "min_distinct": {"bytes.type.*": 24, "values.type.*": 16},
     },
